@@ -72,7 +72,7 @@ def evaluate(case):
                   subcases=2)
 
 
-PRES = ["list", "list", "list", "array", "dict-str", "dict-int", "names", "names-array"]
+PRES = ["list", "list", "list", "array", "dict-str", "dict-int", "names", "names-array", "dict-mixed"]
 
 
 def arrange(draw, base, extras, order):
